@@ -639,7 +639,11 @@ def attribute(rej, line):
     props = set()
     if "panic" in comps:
         props.add("C13")
-        return props, comps
+        comps = comps - {"unknown"}
+        if comps == {"panic"}:
+            return props, comps
+        # the handler died half-way: whatever it should have done and did not (or did only partly) also speaks
+        # to the properties that own that state
     if ev in ("CleanupTick", "Advance") or comps & {"agg-retry", "agg-tx"}:
         props.add("C14")
     invalid_obs = False
@@ -670,7 +674,7 @@ def attribute(rej, line):
 def signature(rej, line, comps):
     """Stable signature of a rejection for known_findings matching."""
     ev = line.get("ev", rej.get("ev"))
-    if "panic" in comps:
+    if "panic" in comps and "panic" in line.get("s", {}):
         msg = line["s"]["panic"].splitlines()[0]
         import re
         msg = re.sub(r"0x[0-9a-f]+", "0x", msg)
